@@ -82,18 +82,21 @@ def repeatRun (f : St → R (St × List Char)) : Nat → St → List Char → R 
   | 0, st, last => .ok (st, last)
   | n + 1, st, _ => (f st).bind fun (st, rest) => repeatRun f n st rest
 
-/-- `__Pyx_BufFmt_CheckString`: the state and the returned pointer (rest of the text) -/
-def run (guard : Bool) : Nat → St → List Char → R (St × List Char)
-  | 0, _, _ => .fuel
-  | _ + 1, st, [] =>
+/-- `__Pyx_BufFmt_CheckString`: the state and the returned pointer (rest of the text).  `gotZ` is the local
+    variable `got_Z` of one invocation: set by a `Z` prefix, consumed by the type character that follows (it
+    decides pooling and becomes `is_complex`), and reset to 0 by BOTH the pooling and the new-type branch;
+    every recursive invocation (`T{`) starts with its own `got_Z = 0`. -/
+def run (guard : Bool) : Nat → St → Bool → List Char → R (St × List Char)
+  | 0, _, _, _ => .fuel
+  | _ + 1, st, _, [] =>
     if st.encType ≠ NUL ∧ st.slots = [] then .err "mismatch"
     else (chunk guard st).bind fun st =>
       if st.slots ≠ [] then .err "mismatch" else .ok (st, [])
-  | fuel + 1, st, c :: cs =>
-    if c = ' ' ∨ c = '\r' ∨ c = '\n' then run guard fuel st cs
-    else if c = '<' then run guard fuel { st with newPack := '=' } cs
+  | fuel + 1, st, gotZ, c :: cs =>
+    if c = ' ' ∨ c = '\r' ∨ c = '\n' then run guard fuel st gotZ cs
+    else if c = '<' then run guard fuel { st with newPack := '=' } gotZ cs
     else if c = '>' ∨ c = '!' then .err "bigendian"
-    else if c = '=' ∨ c = '@' ∨ c = '^' then run guard fuel { st with newPack := c } cs
+    else if c = '=' ∨ c = '@' ∨ c = '^' then run guard fuel { st with newPack := c } gotZ cs
     else if c = 'T' then
       let structCount := st.newCount
       let saved := st.salign
@@ -103,9 +106,9 @@ def run (guard : Bool) : Nat → St → List Char → R (St × List Char)
         (chunk guard st).bind fun st =>
           let st := { st with encType := NUL, encCount := 0, salign := 0 }
           if structCount > fuel then .fuel
-          else (repeatRun (fun s => run guard fuel s body) structCount st body).bind fun (st, rest) =>
+          else (repeatRun (fun s => run guard fuel s false body) structCount st body).bind fun (st, rest) =>
             let st := if saved ≠ 0 then { st with salign := saved } else st
-            if rest.length ≤ body.length then run guard fuel st rest else .fuel
+            if rest.length ≤ body.length then run guard fuel st gotZ rest else .fuel
       | _ => .err "expectedbrace"
     else if c = '}' then
       let alignment := st.salign
@@ -117,24 +120,24 @@ def run (guard : Bool) : Nat → St → List Char → R (St × List Char)
     else if c = 'x' then
       (chunk guard st).bind fun st =>
         run guard fuel { st with off := st.off + st.newCount, newCount := 1, encCount := 0, encType := NUL,
-                                 encPack := st.newPack } cs
+                                 encPack := st.newPack } gotZ cs
     else if c = 'Z' then
       match cs with
       | d :: cs' =>
-        if d = 'f' ∨ d = 'd' ∨ d = 'g' then (typeChar guard st d true).bind fun st => run guard fuel st cs'
+        if d = 'f' ∨ d = 'd' ∨ d = 'g' then (typeChar guard st d true).bind fun st => run guard fuel st false cs'
         else .err "unexpectedchar"
       | [] => .err "unexpectedchar"
-    else if c ∈ poolChars then (typeChar guard st c false).bind fun st => run guard fuel st cs
-    else if c = 's' then (newType guard st c false).bind fun st => run guard fuel st cs
+    else if c ∈ poolChars then (typeChar guard st c gotZ).bind fun st => run guard fuel st false cs
+    else if c = 's' then (newType guard st c gotZ).bind fun st => run guard fuel st false cs
     else if c = ':' then
       match skipName cs with
       | none => .ub "unterminated-name"
-      | some rest => run guard fuel st rest
+      | some rest => run guard fuel st gotZ rest
     else if c = '(' then (parseArray guard st cs).bind fun (st, rest) =>
-      if rest.length ≤ cs.length then run guard fuel st rest else .fuel
+      if rest.length ≤ cs.length then run guard fuel st gotZ rest else .fuel
     else if isDigit c then
       let (n, rest) := parseNum 0 (c :: cs)
-      if n ≥ 2 ^ 31 then .ub "intoverflow" else run guard fuel { st with newCount := n } rest
+      if n ≥ 2 ^ 31 then .ub "intoverflow" else run guard fuel { st with newCount := n } gotZ rest
     else .err "unknownchar"
 
 /-- enough fuel for every text whose struct repeat counts are small -/
@@ -143,7 +146,7 @@ def fuelFor (cs : List Char) : Nat := 40 * (cs.length + 2)
 /-- acquisition verdict of `__Pyx__GetBufferAndValidate` / `__Pyx_ValidateAndInit_memviewslice` after the
     ndim test: format check, then the item-size test -/
 def acquire (guard : Bool) (slots : List Slot) (dtSize itemsize : Nat) (fmt : List Char) : R Unit :=
-  (run guard (fuelFor fmt) (St.init slots) fmt).bind fun _ =>
+  (run guard (fuelFor fmt) (St.init slots) false fmt).bind fun _ =>
     if itemsize ≠ dtSize then .err "itemsize" else .ok ()
 
 end CyVerif.C17
